@@ -74,6 +74,9 @@ def c19(payload):
             for s in spec['sources']:
                 s['v'] = [s['v'][0] * scale, s['v'][1] * scale]
             gen.add_lumped_loads(rng, spec, n)
+            if spec['loads'] and rng.random() < 0.35:
+                # a load attached twice to one pulse (two of them in series there): two entries of the listing
+                l_ = rng.choice(spec['loads']); l_['attach'].append(list(l_['attach'][0]))
             if rng.random() < 0.4:
                 # a distributed load: its value differs from pulse to pulse (grounded, junction and tapered pulses)
                 spec['loads'].append(dict(kind='skin', cond=float('%.3g' % 10 ** rng.uniform(5, 7.8))))
